@@ -22,8 +22,12 @@ import (
 
 type TokSet map[string]bool
 
-func (s TokSet) Add(t string)     { s[t] = true }
-func (s TokSet) AddAll(o TokSet)  { for k := range o { s[k] = true } }
+func (s TokSet) Add(t string) { s[t] = true }
+func (s TokSet) AddAll(o TokSet) {
+	for k := range o {
+		s[k] = true
+	}
+}
 func (s TokSet) Has(t string) bool { return s[t] }
 func (s TokSet) List() []string {
 	out := make([]string, 0, len(s))
